@@ -1,1 +1,628 @@
-fn main() { eprintln!("engine not built yet"); std::process::exit(2); }
+//! Engine `swc` (C28): the real SWC visitor (`compile_iso_literal_visitor`), the real iso parser and
+//! the real artifact-path code of the compiler, run on the same literal.
+//!
+//! request : swc.lit \t <literal hex> \t esm|cjs \t <file dir, root relative> \t <project_root>
+//!           \t <artifact_directory | -> \t <form> \t <generator tag>
+//! answer  : hdr:<kind>:<Type>:<field> | hdr:none      (real parse_iso_literal on the header probe)
+//!           imp:<path hex>:<ident hex> | req:<path hex> | arg | identity | err:<kind> | panic | other
+//!           kept | changed                             (all other code of the module)
+//!           art:<hex of root-relative path of the entrypoint artifact the compiler writes> | art:-
+//!
+//! Engine `swcstats`: same requests, answer `full:ok|err` (real parser on the whole literal), used
+//! only to measure the generator (how many literals the compiler accepts in full).
+use common_lang_types::{
+    ArtifactPath, ArtifactPathAndContent, EntityNameAndSelectableName, FileContent,
+    FileSystemOperation, TextSource,
+};
+use hx_common::*;
+use intern::string_key::Intern;
+use isograph_config::{create_config, IsographProjectConfig};
+use isograph_lang_parser::{parse_iso_literal, IsoLiteralExtractionResult, IsographLangTokenKind};
+use logos::Logos;
+use std::collections::HashMap;
+use std::panic::{catch_unwind, AssertUnwindSafe};
+use std::path::{Path, PathBuf};
+use std::sync::{Arc, Mutex};
+use swc_core::common::errors::{DiagnosticBuilder, Emitter, Handler, HANDLER};
+use swc_core::common::{
+    sync::Lrc, EqIgnoreSpan, FileName, Globals, SourceMap, SyntaxContext, DUMMY_SP, GLOBALS,
+};
+use swc_core::ecma::ast::*;
+use swc_core::ecma::parser::{parse_file_as_module, EsSyntax, Syntax};
+use swc_core::ecma::visit::{VisitMut, VisitMutWith};
+use swc_isograph_plugin::compile_iso_literal_visitor;
+
+// ------------------------------------------------------------------------------------------------
+// the compiler side
+
+fn real_parse(lit: &str) -> Option<(String, String, String)> {
+    let ts = TextSource { relative_path_to_source_file: "src/File.tsx".intern().into(), span: None };
+    let r = parse_iso_literal(
+        lit.to_string(),
+        "src/File.tsx".intern().into(),
+        Some("HxExport".to_string()),
+        ts,
+    );
+    match r {
+        Ok(IsoLiteralExtractionResult::EntrypointDeclaration(d)) => Some((
+            "entrypoint".into(),
+            d.item.parent_type.item.0.to_string(),
+            d.item.client_field_name.item.0.to_string(),
+        )),
+        Ok(IsoLiteralExtractionResult::ClientFieldDeclaration(d)) => Some((
+            "field".into(),
+            d.item.parent_type.item.0.to_string(),
+            d.item.client_field_name.item.0.to_string(),
+        )),
+        Ok(IsoLiteralExtractionResult::ClientPointerDeclaration(d)) => Some((
+            "pointer".into(),
+            d.item.parent_type.item.0.to_string(),
+            d.item.client_pointer_name.item.0.to_string(),
+        )),
+        Err(_) => None,
+    }
+}
+
+/// The header of the literal = the text up to the end of the 4th token of the REAL lexer; the
+/// REAL parser decides on `header ++ a minimal valid rest for its keyword`.
+fn header_probe(lit: &str) -> Option<(String, String, String)> {
+    let mut lx = IsographLangTokenKind::lexer(lit);
+    let mut end4 = None;
+    let mut first: Option<String> = None;
+    for i in 0..4 {
+        match lx.next() {
+            Some(_) => {
+                if i == 0 {
+                    first = Some(lx.slice().to_string());
+                }
+                if i == 3 {
+                    end4 = Some(lx.span().end);
+                }
+            }
+            None => break,
+        }
+    }
+    let end4 = end4?;
+    let head = &lit[..end4];
+    let rest = match first.as_deref() {
+        Some("entrypoint") => "",
+        Some("field") => " {}",
+        Some("pointer") => " to HxT {}",
+        _ => "",
+    };
+    real_parse(&format!("{head}{rest}"))
+}
+
+struct CompilerSide {
+    /// canonical root directory (holds isograph.config.json files in per-config sub directories)
+    base: PathBuf,
+    cache: HashMap<(String, String), (PathBuf, PathBuf)>, // (project_root, artdir) -> (root, artifact dir abs)
+}
+
+impl CompilerSide {
+    fn new() -> Self {
+        let base = std::env::temp_dir().join(format!("hx_swc_{}", std::process::id()));
+        let _ = std::fs::remove_dir_all(&base);
+        std::fs::create_dir_all(&base).unwrap();
+        CompilerSide { base: base.canonicalize().unwrap(), cache: HashMap::new() }
+    }
+
+    fn config_json(project_root: &str, artdir: &str, module: &str) -> String {
+        let mut m = serde_json::Map::new();
+        m.insert("project_root".into(), project_root.into());
+        if artdir != "-" {
+            m.insert("artifact_directory".into(), artdir.into());
+        }
+        m.insert("schema".into(), "./schema.graphql".into());
+        let mut o = serde_json::Map::new();
+        o.insert("module".into(), (if module == "cjs" { "commonjs" } else { "esmodule" }).into());
+        m.insert("options".into(), serde_json::Value::Object(o));
+        serde_json::Value::Object(m).to_string()
+    }
+
+    /// Root directory of the project and the absolute artifact directory as the compiler's own
+    /// `create_config` computes it (it creates the directories and canonicalises them).
+    fn dirs(&mut self, project_root: &str, artdir: &str) -> (PathBuf, PathBuf) {
+        let key = (project_root.to_string(), artdir.to_string());
+        if let Some(v) = self.cache.get(&key) {
+            return v.clone();
+        }
+        // three levels so that a leading `..` or two in a config path stays inside `base`
+        let root = self.base.join(format!("c{}", self.cache.len())).join("l1").join("l2");
+        std::fs::create_dir_all(&root).unwrap();
+        std::fs::write(root.join("schema.graphql"), "type Query { x: Int }\n").unwrap();
+        let loc = root.join("isograph.config.json");
+        std::fs::write(&loc, Self::config_json(project_root, artdir, "esm")).unwrap();
+        let cwd = root.to_str().unwrap().intern().into();
+        let cfg = create_config(&loc, cwd);
+        let v = (root, cfg.artifact_directory.absolute_path.clone());
+        self.cache.insert(key, v.clone());
+        v
+    }
+
+    /// Path of the entrypoint artifact for (type, field): the compiler's own planner
+    /// (`FileSystemState::recreate_all`) on an artifact list holding one entrypoint artifact.
+    fn entrypoint_artifact(&mut self, project_root: &str, artdir: &str, t: &str, f: &str) -> String {
+        let (root, adir) = self.dirs(project_root, artdir);
+        let arts = vec![ArtifactPathAndContent {
+            file_content: FileContent(String::new()),
+            artifact_path: ArtifactPath {
+                type_and_field: Some(EntityNameAndSelectableName {
+                    parent_entity_name: t.intern().into(),
+                    selectable_name: f.intern().into(),
+                }),
+                file_name: *artifact_content::generate_artifacts::ENTRYPOINT_FILE_NAME,
+            },
+        }];
+        let state: artifact_content::FileSystemState = (&arts[..]).into();
+        let ops = artifact_content::FileSystemState::recreate_all(&state, &adir);
+        for op in ops {
+            if let FileSystemOperation::WriteFile(p, _) = op {
+                return match p.strip_prefix(&root) {
+                    Ok(rel) => rel.to_str().unwrap().to_string(),
+                    Err(_) => format!("ABS:{}", p.display()),
+                };
+            }
+        }
+        "none".to_string()
+    }
+}
+
+impl Drop for CompilerSide {
+    fn drop(&mut self) {
+        let _ = std::fs::remove_dir_all(&self.base);
+    }
+}
+
+// ------------------------------------------------------------------------------------------------
+// the SWC side
+
+#[derive(Clone, Default)]
+struct Collect(Arc<Mutex<Vec<String>>>);
+impl Emitter for Collect {
+    fn emit(&mut self, db: &DiagnosticBuilder<'_>) {
+        self.0.lock().unwrap().push(db.message());
+    }
+}
+
+const HOLE: &str = "__HX_ISO__";
+const TARGET: &str = "__hx_target";
+
+fn module_source(nested: bool) -> &'static str {
+    if nested {
+        "import React from 'react';\nconst before = () => 2;\nexport function wrap(p) {\n  const __hx_target = __HX_ISO__;\n  return <div>{__hx_target}{before(p)}</div>;\n}\nexport default wrap;\nconst notiso = isoo(`entrypoint Query.Other`);\n"
+    } else {
+        "import React from 'react';\nconst before = 1;\nexport const __hx_target = __HX_ISO__;\nfunction after(a) {\n  return <div>{a + before}</div>;\n}\nconst obj = { iso: 1, other: before.iso };\n"
+    }
+}
+
+fn ident(s: &str) -> Ident {
+    Ident::new(s.into(), DUMMY_SP, SyntaxContext::empty())
+}
+
+fn arg(e: Expr) -> ExprOrSpread {
+    ExprOrSpread { spread: None, expr: Box::new(e) }
+}
+
+fn call(callee: Expr, args: Vec<ExprOrSpread>) -> Expr {
+    Expr::Call(CallExpr {
+        span: DUMMY_SP,
+        ctxt: SyntaxContext::empty(),
+        callee: Callee::Expr(Box::new(callee)),
+        args,
+        type_args: None,
+    })
+}
+
+fn tpl(raw: &str, with_subst: bool) -> Expr {
+    let el = |r: &str, tail: bool| TplElement { span: DUMMY_SP, tail, cooked: None, raw: r.into() };
+    if with_subst {
+        Expr::Tpl(Tpl {
+            span: DUMMY_SP,
+            exprs: vec![Box::new(Expr::Ident(ident("hxSubst")))],
+            quasis: vec![el(raw, false), el("", true)],
+        })
+    } else {
+        Expr::Tpl(Tpl { span: DUMMY_SP, exprs: vec![], quasis: vec![el(raw, true)] })
+    }
+}
+
+/// The iso expression for a form.  `None`: unknown form.
+fn iso_expr(form: &str, lit: &str) -> Option<Expr> {
+    let iso = || Expr::Ident(ident("iso"));
+    let a1 = || arg(Expr::Ident(ident("__HX_ARG__")));
+    let a2 = || arg(Expr::Ident(ident("__HX_ARG2__")));
+    let t = || arg(tpl(lit, false));
+    Some(match form {
+        "bare" => call(iso(), vec![t()]),
+        "call1" => call(call(iso(), vec![t()]), vec![a1()]),
+        "call0" => call(call(iso(), vec![t()]), vec![]),
+        "call2" => call(call(iso(), vec![t()]), vec![a1(), a2()]),
+        "subst" => call(iso(), vec![arg(tpl(lit, true))]),
+        "subst1" => call(call(iso(), vec![arg(tpl(lit, true))]), vec![a1()]),
+        "nontpl" => call(iso(), vec![arg(Expr::Ident(ident("hxNotATemplate")))]),
+        "noargs" => call(iso(), vec![]),
+        "twoargs" => call(iso(), vec![t(), a2()]),
+        "twoargs1" => call(call(iso(), vec![t(), a2()]), vec![a1()]),
+        _ => return None,
+    })
+}
+
+struct Fill(Option<Expr>);
+impl VisitMut for Fill {
+    fn visit_mut_expr(&mut self, e: &mut Expr) {
+        if let Expr::Ident(i) = e {
+            if &*i.sym == HOLE {
+                if let Some(x) = self.0.take() {
+                    *e = x;
+                }
+                return;
+            }
+        }
+        e.visit_mut_children_with(self);
+    }
+}
+
+/// Takes the initialiser of `__hx_target` out of the module (leaving a dummy behind).
+struct Take(Option<Expr>);
+impl VisitMut for Take {
+    fn visit_mut_var_declarator(&mut self, d: &mut VarDeclarator) {
+        if let Pat::Ident(b) = &d.name {
+            if &*b.id.sym == TARGET {
+                if let Some(init) = d.init.take() {
+                    self.0 = Some(*init);
+                    d.init = Some(Box::new(Expr::Ident(ident("__HX_TAKEN__"))));
+                }
+                return;
+            }
+        }
+        d.visit_mut_children_with(self);
+    }
+}
+
+fn err_kind(msg: &str) -> &'static str {
+    if msg.contains("Expected 'entrypoint', 'field' or 'pointer'") {
+        "invalid-keyword"
+    } else if msg.contains("should be passed exactly one argument") {
+        "fn-one-arg"
+    } else if msg.contains("Iso invocation require one parameter") {
+        "iso-one-arg"
+    } else if msg.contains("Only template literals") {
+        "only-tpl"
+    } else if msg.contains("Substitutions are not allowed") {
+        "subst"
+    } else {
+        "unknown"
+    }
+}
+
+/// (swc outcome, kept|changed)
+fn run_swc(
+    lit: &str,
+    module: &str,
+    root: &Path,
+    filedir: &str,
+    project_root: &str,
+    artdir: &str,
+    form: &str,
+) -> (String, String) {
+    let (form, nested) = match form.strip_suffix(".n") {
+        Some(f) => (f, true),
+        None => (form, false),
+    };
+    let Some(isoexpr) = iso_expr(form, lit) else { return ("bad-form".into(), "kept".into()) };
+    let cfg: IsographProjectConfig =
+        serde_json::from_str(&CompilerSide::config_json(project_root, artdir, module)).unwrap();
+    let dir = if filedir == "." { root.to_path_buf() } else { root.join(filedir) };
+    let filename = dir.join("File.tsx");
+
+    let cm: Lrc<SourceMap> = Default::default();
+    let msgs = Collect::default();
+    let handler = Handler::with_emitter(true, false, Box::new(msgs.clone()));
+    let fm = cm.new_source_file(FileName::Custom("input.js".into()).into(), module_source(nested).to_string());
+    let mut errs = vec![];
+    let parsed = parse_file_as_module(
+        &fm,
+        Syntax::Es(EsSyntax { jsx: true, ..Default::default() }),
+        EsVersion::latest(),
+        None,
+        &mut errs,
+    )
+    .expect("harness module template must parse");
+    let mut original = parsed;
+    original.visit_mut_with(&mut Fill(Some(isoexpr)));
+
+    let transformed: Module = GLOBALS.set(&Globals::new(), || {
+        HANDLER.set(&handler, || {
+            let pass = compile_iso_literal_visitor(&cfg, &filename, root, None);
+            match Program::Module(original.clone()).apply(pass) {
+                Program::Module(m) => m,
+                _ => unreachable!(),
+            }
+        })
+    });
+
+    // the added imports (prepended), then the rest must be the original module except the target
+    let added = transformed.body.len().saturating_sub(original.body.len());
+    let mut imports: Vec<(String, String)> = vec![];
+    let mut ok_imports = true;
+    for it in &transformed.body[..added] {
+        match it {
+            ModuleItem::ModuleDecl(ModuleDecl::Import(d)) if d.specifiers.len() == 1 && !d.type_only => {
+                match &d.specifiers[0] {
+                    ImportSpecifier::Default(s) => {
+                        imports.push((s.local.sym.to_string(), d.src.value.to_string()))
+                    }
+                    _ => ok_imports = false,
+                }
+            }
+            _ => ok_imports = false,
+        }
+    }
+    let mut t_rest = Module { span: DUMMY_SP, body: transformed.body[added..].to_vec(), shebang: None };
+    let mut o_rest = Module { span: DUMMY_SP, body: original.body.clone(), shebang: None };
+    let mut tk_t = Take(None);
+    t_rest.visit_mut_with(&mut tk_t);
+    let mut tk_o = Take(None);
+    o_rest.visit_mut_with(&mut tk_o);
+    let kept = ok_imports && t_rest.body.eq_ignore_span(&o_rest.body);
+    let orig_expr = tk_o.0.expect("target in original");
+    let messages = msgs.0.lock().unwrap().clone();
+
+    let outcome = match tk_t.0 {
+        None => "other:no-target".to_string(),
+        Some(e) => {
+            if !messages.is_empty() {
+                let k = err_kind(&messages[0]);
+                if messages.len() == 1 && e.eq_ignore_span(&orig_expr) && imports.is_empty() {
+                    format!("err:{k}")
+                } else {
+                    format!("other:err-but-changed:{k}")
+                }
+            } else {
+                match &e {
+                    Expr::Ident(i) if &*i.sym == "__HX_ARG__" && imports.is_empty() => "arg".to_string(),
+                    Expr::Ident(i) => {
+                        let hits: Vec<_> = imports.iter().filter(|(l, _)| *l == i.sym.to_string()).collect();
+                        if imports.len() == 1 && hits.len() == 1 {
+                            format!("imp:{}:{}", hex(hits[0].1.as_bytes()), hex(hits[0].0.as_bytes()))
+                        } else {
+                            "other:ident".to_string()
+                        }
+                    }
+                    Expr::Arrow(a) => {
+                        let is_id = a.params.len() == 1
+                            && matches!(&a.params[0], Pat::Ident(b) if &*b.id.sym == "x")
+                            && matches!(&*a.body, BlockStmtOrExpr::Expr(b) if matches!(&**b, Expr::Ident(i) if &*i.sym == "x"))
+                            && !a.is_async
+                            && !a.is_generator;
+                        if is_id && imports.is_empty() { "identity".to_string() } else { "other:arrow".to_string() }
+                    }
+                    Expr::Member(m) => {
+                        let is_default = matches!(&m.prop, MemberProp::Ident(p) if &*p.sym == "default");
+                        match &*m.obj {
+                            Expr::Call(c) if is_default && imports.is_empty() => match (&c.callee, &c.args[..]) {
+                                (Callee::Expr(cal), [a]) if a.spread.is_none() => match (&**cal, &*a.expr) {
+                                    (Expr::Ident(r), Expr::Lit(Lit::Str(s))) if &*r.sym == "require" => {
+                                        format!("req:{}", hex(s.value.as_bytes()))
+                                    }
+                                    _ => "other:member".to_string(),
+                                },
+                                _ => "other:member".to_string(),
+                            },
+                            _ => "other:member".to_string(),
+                        }
+                    }
+                    _ if e.eq_ignore_span(&orig_expr) => "other:unchanged-without-error".to_string(),
+                    _ => "other:expr".to_string(),
+                }
+            }
+        }
+    };
+    (outcome, if kept { "kept".into() } else { "changed".into() })
+}
+
+// ------------------------------------------------------------------------------------------------
+// generator
+
+const WS: &[&str] = &[" ", " ", " ", "\n", "\t", "  ", "\n  ", "\r\n", "\x0c", " \t\n"];
+const ODD_WS: &[&str] = &["\u{feff}", "\x0b", "\u{a0}", "\u{2028}", "\u{85}"];
+const KEYWORDS: &[&str] = &["entrypoint", "entrypoint", "entrypoint", "field", "field", "pointer"];
+const NEAR_KEYWORDS: &[&str] = &[
+    "entrypointFoo", "fieldX", "pointers", "Field", "ENTRYPOINT", "entry", "point", "unknown", "query", "fiel", "",
+];
+const TYPES: &[&str] = &[
+    "Query", "Query", "User", "Q", "_x", "Query2", "Pet_1", "field", "entrypoint", "pointer", "Mutation", "QueryQuery",
+    "fieldX", "Quer",
+];
+const FIELDS: &[&str] = &[
+    "HomeRoute", "foo", "f", "foo2", "__x", "field", "entrypoint", "pointer", "fooBar", "foo_bar", "Query", "fo", "foofoo",
+    "entrypointFoo",
+];
+const BAD_NAMES: &[&str] = &["Qu\u{e9}", "1abc", "a-b", "\u{6f22}", "a.b", "x\u{1F600}", "$v", "a b", "-1", "0"];
+const ENTRY_TAILS_OK: &[&str] = &[
+    "", "", "", " ", "\n", "\n  ", " @lazyLoad", "@lazyLoad", "  @lazyLoad\n", "@a @b", " @lazyLoad(a: 1)", "@lazyLoad(a: \"x\")",
+    "\t@x", "\u{feff}",
+];
+const ENTRY_TAILS_BAD: &[&str] = &[" {", "(", ",", " # c", " // c", ".x", " foo", "@", " @1", "!", " \u{a0}", "\u{e9}"];
+const FIELD_TAILS_OK: &[&str] = &[
+    " { }", "{}", " {\n  id\n}", " @component {\n    pets {\n      id\n    }\n  }", "@component{\n a,\n }",
+    "($x: Int) { a, }", " ($x: Int!, $y: String) @component {\n a(x: $x)\n }", " \"\"\"desc\"\"\" {\n a\n }",
+    " { x(a: \"entrypoint A.b\")\n }", "\n{\n  a: b\n}", " @component @x(y: 2) {\n}", "\u{feff}{}",
+];
+const FIELD_TAILS_BAD: &[&str] = &[" {", "", " @component", " { a b }", "(", " to User {}", "\u{e9} {}"];
+const POINTER_TAILS_OK: &[&str] = &[
+    " to User { id, }", " to [User!]! @x {\n id\n }", "($a: ID) to User {}", "\nto User\n{\n}", " to User \"\"\"d\"\"\" {\n a\n }",
+];
+const POINTER_TAILS_BAD: &[&str] = &[" { }", " to { }", " To User {}", ""];
+const COMPS: &[&str] = &["src", "components", "app", "generated", "gen", "a", "b", "__isograph", "x", "Query"];
+const PROJECT_ROOTS: &[&str] = &["./src/components", "./src", "src", ".", "./app/src/x", "src/components/"];
+const ARTDIRS: &[&str] = &[
+    "-", "-", "-", "./src", "./src/generated", "./gen", "src/components", "./a/b/c", ".", "./src/../gen", "src//x", "./src/.",
+];
+const FORMS_ENTRY: &[&str] = &["bare", "bare", "bare", "bare", "bare.n", "call1", "call0", "subst", "twoargs", "nontpl"];
+const FORMS_FIELD: &[&str] = &[
+    "call1", "call1", "call1", "call1.n", "bare", "bare.n", "call0", "call2", "subst", "subst1", "noargs", "twoargs", "twoargs1", "nontpl",
+];
+
+fn pk<'a>(r: &mut Rng, xs: &[&'a str]) -> &'a str {
+    xs[r.below(xs.len())]
+}
+
+fn ws(r: &mut Rng, min1: bool) -> String {
+    let mut s = String::new();
+    if min1 || r.chance(1, 4) {
+        s.push_str(pk(r, WS));
+        if r.chance(1, 6) {
+            s.push_str(pk(r, WS));
+        }
+    }
+    s
+}
+
+fn gen_case(r: &mut Rng) -> String {
+    let malformed = r.chance(1, 7);
+    let kw: &str = if malformed && r.chance(1, 3) { pk(r, NEAR_KEYWORDS) } else { pk(r, KEYWORDS) };
+    let mut all_ok = KEYWORDS.contains(&kw);
+    let mut lit = String::new();
+    // leading white space (the extraction keeps whatever follows the back-tick)
+    match r.below(8) {
+        0 => lit.push_str("\n  "),
+        1 => lit.push_str(&ws(r, true)),
+        2 if malformed => {
+            lit.push_str(pk(r, ODD_WS));
+        }
+        _ => {}
+    }
+    lit.push_str(kw);
+    // keyword / type separator
+    if malformed && r.chance(1, 4) {
+        if r.chance(1, 2) {
+            all_ok = false; // glued: one identifier
+        } else {
+            let o = pk(r, ODD_WS);
+            lit.push_str(o);
+            if o != "\u{feff}" {
+                all_ok = false;
+            }
+        }
+    } else {
+        lit.push_str(&ws(r, true));
+    }
+    let t: &str = if malformed && r.chance(1, 5) { all_ok = false; pk(r, BAD_NAMES) } else { pk(r, TYPES) };
+    lit.push_str(t);
+    // around the dot: mostly glued, often spaced (the parser accepts both)
+    if r.chance(1, 3) { lit.push_str(&ws(r, true)); }
+    if malformed && r.chance(1, 6) { all_ok = false; lit.push_str(pk(r, &["", "..", ":", "/"])); } else { lit.push('.'); }
+    if r.chance(1, 3) { lit.push_str(&ws(r, true)); }
+    let f: &str = if malformed && r.chance(1, 5) { all_ok = false; pk(r, BAD_NAMES) } else { pk(r, FIELDS) };
+    lit.push_str(f);
+    let bad_tail = malformed && r.chance(1, 3);
+    let tail: &str = match (kw, bad_tail) {
+        ("entrypoint", false) => pk(r, ENTRY_TAILS_OK),
+        ("entrypoint", true) => pk(r, ENTRY_TAILS_BAD),
+        ("field", false) => pk(r, FIELD_TAILS_OK),
+        ("field", true) => pk(r, FIELD_TAILS_BAD),
+        ("pointer", false) => pk(r, POINTER_TAILS_OK),
+        ("pointer", true) => pk(r, POINTER_TAILS_BAD),
+        (_, _) => pk(r, FIELD_TAILS_OK),
+    };
+    if bad_tail { all_ok = false; }
+    lit.push_str(tail);
+    if r.chance(1, 5) { lit.push_str(pk(r, &["\n", "  ", "\n  ", "\t"])); }
+    if malformed && r.chance(1, 4) {
+        // byte-level damage: drop or insert one character somewhere
+        all_ok = false;
+        let chars: Vec<char> = lit.chars().collect();
+        if !chars.is_empty() {
+            let i = r.below(chars.len());
+            let mut v = chars.clone();
+            if r.chance(1, 2) { v.remove(i); } else {
+                let c = *r.pick(&['x', ' ', '.', '@', '(', '\u{e9}', '\u{1F600}', '\n', '_', '0']);
+                v.insert(i, c);
+            }
+            lit = v.into_iter().collect();
+        }
+    }
+    if malformed && r.chance(1, 10) {
+        all_ok = false;
+        lit = format!("{}{}", pk(r, &["x ", "# c\n", "query ", "entrypoint ", "."]), lit);
+    }
+    let module = if r.chance(1, 2) { "esm" } else { "cjs" };
+    let project_root: &str = pk(r, PROJECT_ROOTS);
+    let artdir: &str = pk(r, ARTDIRS);
+    // where the file lives: mostly below the project root / next to the artifact directory
+    let depth = r.below(6);
+    let mut comps: Vec<String> = vec![];
+    let anchor = if artdir == "-" { project_root } else { artdir };
+    if r.chance(2, 3) {
+        for c in anchor.split('/') {
+            if !c.is_empty() && c != "." && c != ".." { comps.push(c.to_string()); }
+        }
+        if r.chance(1, 4) && !comps.is_empty() { comps.pop(); }
+    }
+    for _ in 0..depth {
+        if comps.len() >= 6 { break; }
+        comps.push(pk(r, COMPS).to_string());
+    }
+    let filedir = if comps.is_empty() { ".".to_string() } else { comps.join("/") };
+    let form: &str = if kw == "entrypoint" { pk(r, FORMS_ENTRY) } else { pk(r, FORMS_FIELD) };
+    let tag = if all_ok { format!("{}-ok", &kw[..1]) } else { "mal".to_string() };
+    format!(
+        "swc.lit\t{}\t{}\t{}\t{}\t{}\t{}\t{}",
+        hex(lit.as_bytes()), module, filedir, project_root, artdir, form, tag
+    )
+}
+
+// ------------------------------------------------------------------------------------------------
+
+fn run_case(cs: &mut CompilerSide, f: &[&str]) -> String {
+    if f.len() < 7 {
+        return "bad-op".into();
+    }
+    let Some(bytes) = unhex(f[1]) else { return "bad-op".into() };
+    let Ok(lit) = String::from_utf8(bytes) else { return "bad-op".into() };
+    let (module, filedir, project_root, artdir, form) = (f[2], f[3], f[4], f[5], f[6]);
+    let hdr = match catch_unwind(AssertUnwindSafe(|| header_probe(&lit))) {
+        Ok(h) => h,
+        Err(_) => return "hdr:panic".into(),
+    };
+    let (root, _) = cs.dirs(project_root, artdir);
+    let swc = match catch_unwind(AssertUnwindSafe(|| {
+        run_swc(&lit, module, &root, filedir, project_root, artdir, form)
+    })) {
+        Ok(x) => x,
+        Err(_) => ("panic".to_string(), "kept".to_string()),
+    };
+    let art = match &hdr {
+        Some((k, t, fl)) if k == "entrypoint" => {
+            format!("art:{}", hex(cs.entrypoint_artifact(project_root, artdir, t, fl).as_bytes()))
+        }
+        _ => "art:-".to_string(),
+    };
+    let hdr_s = match &hdr {
+        Some((k, t, fl)) => format!("hdr:{k}:{t}:{fl}"),
+        None => "hdr:none".to_string(),
+    };
+    format!("{}\t{}\t{}\t{}", hdr_s, swc.0, swc.1, art)
+}
+
+fn run_stats(f: &[&str]) -> String {
+    let Some(bytes) = unhex(f[1]) else { return "bad-op".into() };
+    let Ok(lit) = String::from_utf8(bytes) else { return "bad-op".into() };
+    match catch_unwind(AssertUnwindSafe(|| real_parse(&lit))) {
+        Ok(Some((k, _, _))) => format!("full:ok:{k}"),
+        Ok(None) => "full:err".into(),
+        Err(_) => "full:panic".into(),
+    }
+}
+
+fn main() {
+    let which = std::env::var("HX_ENGINE").unwrap_or_default();
+    let mut cs = CompilerSide::new();
+    main_loop(&|r, _i| vec![gen_case(r)], &mut |f| match (f[0], which.as_str()) {
+        ("swc.lit", "swcstats") => run_stats(f),
+        ("swc.lit", _) => run_case(&mut cs, f),
+        _ => "bad-op".to_string(),
+    });
+}
